@@ -23,6 +23,7 @@ class Result:
         self.rule = ''
         self.samples = []
         self.tags = {}
+        self.per_entry = {}   # histories run per catalogue entry / container kind (input distribution)
         self.per_profile = {}
         self.exhaustive = False
         self.extra = {}
@@ -163,6 +164,23 @@ def project(ops, obs, mode):
     return out
 
 # ------------------------------------------------------------------ generic runner
+def run_impl_only(ctx, res, cases, oracle):
+    """oracle-only evaluation of histories too large for the list-based model (no correspondence is claimed for them)"""
+    hist = [(n, [op_str(o) for o in ops]) for n, ops in cases]
+    for prof in PROFILES:
+        impl = lib.run_impl('regions', hist, prof)
+        for (name, ops), io in zip(cases, impl):
+            res.evaluations += 1
+            res.per_entry[name + ' (impl only)'] = res.per_entry.get(name + ' (impl only)', 0) + 1
+            e = EXPR[name]
+            if any(g and g[0] in ('ILL', 'UNSUP', 'bad-history', 'unknown-entry', 'CRASH') or (g and g[0].startswith('bad-')) for g in io):
+                raise RuntimeError(f'generator/harness bug: {name} -> {[g for g in io if g][:3]}')
+            f = oracle(e, ops, io)
+            if f:
+                short = lambda l: [x if len(x) < 400 else x[:200] + f'...({len(x)} chars)' for x in l]
+                res.failures.append({'kind': 'oracle', 'entry': name, 'rust_type': catalogue.rust_type(e), 'profile': prof,
+                                     'history': short([op_str(o) for o in ops]), 'what': f, 'generator': 'C18 large-allocation batch (deterministic)',
+                                     'observed': short([' '.join(g) for g in io]), 'known': None})
 def run_regions(ctx, res, cases, oracle, mode, known_ok=True):
     """cases: list of (entry name, ops).  Runs implementation and model in both profiles, applies
     the oracle to the implementation, the projection to model vs implementation."""
@@ -173,6 +191,7 @@ def run_regions(ctx, res, cases, oracle, mode, known_ok=True):
         nfail = 0
         for (name, ops), io, mo in zip(cases, impl, model):
             res.evaluations += 1
+            res.per_entry[name] = res.per_entry.get(name, 0) + 1
             e = EXPR[name]
             if any(g and g[0] in ('ILL', 'UNSUP', 'bad-history', 'unknown-entry') or (g and g[0].startswith('bad-')) for g in io):
                 raise RuntimeError(f'generator/harness bug: {name} {[op_str(o) for o in ops]} -> {io}')
@@ -300,12 +319,15 @@ def c01(ctx):
     for name, e in ENTRIES:
         for _ in range(n_hist):
             hg = HistGen(ctx, name, e)
-            ops = []
+            ops = []; live = 0
             for _ in range(ctx.rng.choice([1, 2, 3, 5, 8, 12])):
                 r = ctx.rng.random()
-                if r < 0.06 and ops: ops.append(('clear', 0))
+                if r < 0.06 and ops: ops.append(('clear', 0)); live = 0
                 elif r < 0.12 and ops: ops.append(('probe', 0))
-                else: ops.append(hg.push(0))
+                elif r < 0.20 and live:
+                    # the other owned conversion: clone_onto a target with arbitrary prior contents
+                    ops.append(('cloneonto', 0, ctx.rng.randrange(live), hg.value(repeat=0.2)))
+                else: ops.append(hg.push(0)); live += 1
             ops.append(('probe', 0))
             cases.append((name, ops)); note_case(res, name, ops)
     # coded regions built by merge_regions, data covered by the statistics they were built from
@@ -625,6 +647,10 @@ def c11(ctx):
                             ('push', 1, 0, hg.value(repeat=0.7)), ('probe', 1)]
                 elif r < 0.17: ops += [('merge', 2, [0]), ('push', 2, 0, hg.recent[-1] if hg.recent else hg.value()), ('probe', 2)]
                 elif r < 0.21: ops.append(('serde', 0))
+                elif r < 0.27 and hg.caps['reserve_regions'] and hg.recent:
+                    # a reservation is not a reset: the item pushed before it is still the one to compare with
+                    p = ('push', 0, ctx.rng.randrange(hg.nforms), hg.recent[-1])
+                    ops += [('resregs', 0, ctx.rng.choice([[], [1], [2], [1, 2]]))] + ([('heap', 0), p, ('heap', 0)] if hg.caps['heap'] else [p])
                 else:
                     p = ('push', 0, ctx.rng.randrange(hg.nforms), hg.value(repeat=0.6))
                     ops += [('heap', 0), p, ('heap', 0)] if hg.caps['heap'] else [p]
@@ -1021,6 +1047,7 @@ def run_ic_cases(ctx, res, cases, cost_oracle=False):
         model = lib.run_model('ic', hist, prof, None)
         for (kind, ostr, ops), io, mo in zip(cases, impl, model):
             res.evaluations += 1
+            res.per_entry['ic:' + kind] = res.per_entry.get('ic:' + kind, 0) + 1
             io = [g[0] if g else '' for g in io]; mo = [g[0] if g else '' for g in mo]
             f = ic_oracle(kind, ops, io, cost_oracle)
             if f:
@@ -1271,6 +1298,7 @@ def run_fs_cases(ctx, res, cases, index_free_names=()):
         model = lib.run_model('fs', hist, prof, FS_NUMBERING)
         for (name, ops), io, mo in zip(cases, impl, model):
             res.evaluations += 1
+            res.per_entry[name] = res.per_entry.get(name, 0) + 1
             e, o = FS_EXPR[name]
             io = [g[0] if g else '' for g in io]; mo = [g[0] if g else '' for g in mo]
             f = fs_oracle(e, o, ops, io, name in index_free_names)
@@ -1453,6 +1481,22 @@ def c18(ctx):
                     p_ = hg.push(0); ops += [p_, ('push', 3, p_[2], p_[3], 'twin'), ('heap', 0), ('heap', 3)]
                 else: ops += [hg.push(0), ('heap', 0)]
             cases.append((name, ops)); note_case(res, name, ops)
+    # large allocations (a retention policy with a size threshold would only show here): one item of a little more than
+    # 1 MiB / 4 MiB in every kind of backing vector (bytes, u64 elements, string bytes, a slice's index container).
+    # Implementation and oracle only: the list-based model takes tens of minutes on a million-element item, and
+    # clauses (i)-(iv) do not need it.
+    large = []
+    for name, unit, small in (('own_u8', 1, [1, 2]), ('own_u64', 8, [1, 2]), ('str', 1, [97]), ('sl_mir_u64', 8, [5]), ('con_own_u64', 8, [7]),
+                              ('sl_own_u8', 16, [[1], [2, 3]]), ('opt_str', 1, ('S', [97]))):
+        if name not in EXPR: continue
+        for total in ((1 << 20) + 4096, (1 << 22) + 8):
+            cnt = total // unit + 1
+            if name == 'sl_own_u8': big = [[i & 0xff] for i in range(cnt)]
+            elif name == 'opt_str': big = ('S', [97 + (i % 26) for i in range(cnt)])
+            elif name == 'str': big = [97 + (i % 26) for i in range(cnt)]
+            else: big = [(i * 7) & 0xff for i in range(cnt)]
+            ops = [('heap', 0), ('push', 0, 0, big), ('heap', 0), ('clear', 0), ('heap', 0), ('push', 0, 0, small), ('heap', 0), ('read', 0)]
+            large.append((name, ops)); res.nontrivial.add(f'large:{name}:{total}')
     def oracle_for(name, ops_ref):
         e = EXPR[name]; sz = sizes.get(name, [])
         def clause(t, op, g, ref, sc):
@@ -1494,6 +1538,7 @@ def c18(ctx):
         name = next(n for n, x in ENTRIES if x is e)
         return ref_oracle(e, ops, obs, [oracle_for(name, [tuple(o[:2]) for o in ops])], mo)
     run_regions(ctx, res, cases, oracle, 'values')
+    run_impl_only(ctx, res, large, oracle)
     return res
 
 # ================================================================== C17 allocation discipline
@@ -1568,6 +1613,7 @@ def c17(ctx):
         model = lib.run_model('regions', hist, prof, NUMBERING)
         for (name, ops), io, mo in zip(cases, impl, model):
             res.evaluations += 1; e = EXPR[name]
+            res.per_entry[name] = res.per_entry.get(name, 0) + 1
             f = oracle(e, ops, io, mo)
             if f:
                 res.failures.append({'kind': 'oracle', 'entry': name, 'rust_type': catalogue.rust_type(e), 'profile': prof,
